@@ -444,6 +444,7 @@ type Sent struct {
 	Signed     bool
 	SignedKey  int
 
+	SPVer      int // registration version of the sending SP when the message was built
 	Session    int // callback: session index addressed (-1 none)
 	CallbackID string
 	SPIdx      int
@@ -577,6 +578,7 @@ func BuildRequest(w *World, t *Task, m *MsgSpec) (*http.Request, *Sent, error) {
 	s.IdPIssuer = w.IDPModel.Issuer(s.Host, s.Header)
 	s.EntityID = w.IDPModel.EntityID(s.IdPIssuer)
 	sp := w.spNode(m.SP)
+	s.SPVer = sp.Version
 	if m.BodyFault != "" || m.WriterFault {
 		w.notConformant(s, "transport fault")
 	}
@@ -635,6 +637,13 @@ func BuildRequest(w *World, t *Task, m *MsgSpec) (*http.Request, *Sent, error) {
 		}
 	}
 	if delay > 0 {
+		infl := w.inflight()
+		for _, x := range infl {
+			x.AdvDuring = true
+		}
+		if len(infl) > 0 {
+			w.fire("advance_while_parked")
+		}
 		time.Sleep(time.Duration(delay))
 		w.fire("delay")
 	}
